@@ -65,6 +65,7 @@ type c10World struct {
 func c10Filter(id string, w *c10World) restful.FilterFunction {
 	return func(req *restful.Request, resp *restful.Response, chain *restful.FilterChain) {
 		pos := req.Request.Header.Get("X-Panic")
+		resp.AddHeader("X-Filter-Trace", id) // which filters ran, in order, is part of every response
 		if pos == "pre:"+id {
 			panic(w.val)
 		}
@@ -153,10 +154,11 @@ type c10Resp struct {
 	DecErr     string
 	Escaped    interface{}
 	EscapedSet bool
+	Trace      []string
 }
 
 func (r c10Resp) key() string {
-	return fmt.Sprintf("%d enc=%q body=%q decerr=%q escaped=%v", r.Code, r.Enc, r.Body, r.DecErr, r.Escaped)
+	return fmt.Sprintf("%d enc=%q body=%q decerr=%q escaped=%v filters=%v", r.Code, r.Enc, r.Body, r.DecErr, r.Escaped, r.Trace)
 }
 
 func (w *c10World) do(cs c10Case, pos string, segs ...string) c10Resp {
@@ -182,6 +184,7 @@ func (w *c10World) do(cs c10Case, pos string, segs ...string) c10Resp {
 		}
 	}()
 	r.Code = rec.Code
+	r.Trace = rec.HeaderMap["X-Filter-Trace"]
 	body, enc, err := decodeBody(rec)
 	r.Enc, r.Body = enc, body
 	if err != nil {
